@@ -578,6 +578,70 @@ pub fn run(rep: &Arc<Report>) {
     nc!(Vec<String>, "Vec<String>", "Array");
     nc!(Vec<f64>, "Vec<f64>", "Array");
     domains.insert("(source variant, target type) pairs".into(), json!(format!("{} pool values x 38 target types (+ Option of each)", pool.len())));
+    // Cow<str> has no Nullable impl (no Option<Cow<str>>): only the cross pairs - every pool value of another variant must be rejected
+    for w in &pool {
+        if variant(w) == "String" {
+            continue;
+        }
+        evals.inc();
+        match catch(|| <std::borrow::Cow<'static, str> as ValueType>::try_from(w.clone())) {
+            Ok(Err(_)) => {}
+            Ok(Ok(y)) => cx.fail("cross<Cow<str>>", "wrong-type-accepted", &variant(w), format!("Cow<str>::try_from({:?}) returned Ok({:?})", w, y)),
+            Err(p) => cx.fail("cross<Cow<str>>", "panic", &variant(w), format!("Cow<str>::try_from({:?}) panicked: {p}", w)),
+        }
+    }
+    // the element-type tag of an array value names the variant of its elements, for every element type (the tag is what
+    // decides which Vec<T> an array extracts as); and the array extracts as a Vec of that type only
+    {
+        macro_rules! tag_of {
+            ($t:ty, $x:expr) => {{
+                evals.inc();
+                let x: $t = $x;
+                let elem: Value = x.clone().into();
+                let arr: Value = vec![x.clone()].into();
+                let null_arr: Value = None::<Vec<$t>>.into();
+                for (what, v) in [("Vec", &arr), ("None::<Vec>", &null_arr)] {
+                    match v {
+                        Value::Array(ty, _) if format!("{:?}", ty) == variant(&elem) => {}
+                        other => cx.fail(&format!("array-tag<{}>", stringify!($t)), "array-type", &variant(&elem), format!("{what}<{}> became {:?}; its element type tag must name the variant {}", stringify!($t), other, variant(&elem))),
+                    }
+                }
+                match catch(|| <Vec<$t> as ValueType>::try_from(arr.clone())) {
+                    Ok(Ok(back)) if back.len() == 1 => {}
+                    other => cx.fail(&format!("array-roundtrip<{}>", stringify!($t)), "array-roundtrip", &variant(&elem), format!("Vec<{}> -> Value -> Vec gave {:?}", stringify!($t), other.map(|r| r.map(|v| v.len()).map_err(|_| "ValueTypeErr"))))
+                }
+            }};
+        }
+        tag_of!(bool, true);
+        tag_of!(i8, 1);
+        tag_of!(i16, 1);
+        tag_of!(i32, 1);
+        tag_of!(i64, 1);
+        tag_of!(u16, 1);
+        tag_of!(u32, 1);
+        tag_of!(u64, 1);
+        tag_of!(f32, 1.5);
+        tag_of!(f64, 1.5);
+        tag_of!(char, 'x');
+        tag_of!(String, "s".to_string());
+        tag_of!(Vec<u8>, vec![1u8]);
+        tag_of!(serde_json::Value, serde_json::json!({"a": 1}));
+        tag_of!(chrono::NaiveDate, chrono::NaiveDate::from_ymd_opt(2020, 2, 29).unwrap());
+        tag_of!(chrono::NaiveTime, chrono::NaiveTime::from_hms_opt(1, 2, 3).unwrap());
+        tag_of!(chrono::NaiveDateTime, chrono::NaiveDate::from_ymd_opt(2020, 2, 29).unwrap().and_hms_opt(1, 2, 3).unwrap());
+        tag_of!(chrono::DateTime<chrono::Utc>, chrono::DateTime::<chrono::Utc>::from_timestamp(86400, 0).unwrap());
+        tag_of!(chrono::DateTime<chrono::Local>, chrono::DateTime::<chrono::Utc>::from_timestamp(86400, 0).unwrap().with_timezone(&chrono::Local));
+        tag_of!(chrono::DateTime<chrono::FixedOffset>, chrono::DateTime::<chrono::Utc>::from_timestamp(86400, 0).unwrap().with_timezone(&chrono::FixedOffset::east_opt(3600).unwrap()));
+        tag_of!(time::Date, time::Date::from_ordinal_date(2020, 60).unwrap());
+        tag_of!(time::Time, time::Time::from_hms(1, 2, 3).unwrap());
+        tag_of!(time::PrimitiveDateTime, time::PrimitiveDateTime::new(time::Date::from_ordinal_date(2020, 60).unwrap(), time::Time::from_hms(1, 2, 3).unwrap()));
+        tag_of!(time::OffsetDateTime, time::OffsetDateTime::from_unix_timestamp(86400).unwrap());
+        tag_of!(uuid::Uuid, uuid::Uuid::from_u128(7));
+        tag_of!(rust_decimal::Decimal, rust_decimal::Decimal::new(15, 1));
+        tag_of!(bigdecimal::BigDecimal, "1.5".parse::<bigdecimal::BigDecimal>().unwrap());
+        tag_of!(ipnetwork::IpNetwork, "10.0.0.0/8".parse::<ipnetwork::IpNetwork>().unwrap());
+        tag_of!(mac_address::MacAddress, mac_address::MacAddress::new([1, 2, 3, 4, 5, 6]));
+    }
     // an array whose element type differs from the target's must be rejected although the variant matches: every ordered pair
     // of distinct element types x array lengths 0, 1, 2 (the empty array carries its element type in the tag only), as
     // Vec<T> and as Option<Vec<T>>
@@ -600,6 +664,14 @@ pub fn run(rep: &Arc<Report>) {
         sources.extend(src_arrays!(char, 'a', 'b'));
         sources.extend(src_arrays!(String, "x".to_string(), "y".to_string()));
         sources.extend(src_arrays!(uuid::Uuid, uuid::Uuid::from_u128(1), uuid::Uuid::from_u128(2)));
+        type Utc = chrono::DateTime<chrono::Utc>;
+        type Local = chrono::DateTime<chrono::Local>;
+        type Fixed = chrono::DateTime<chrono::FixedOffset>;
+        let t0 = chrono::DateTime::<chrono::Utc>::from_timestamp(86400, 0).unwrap();
+        let t1 = chrono::DateTime::<chrono::Utc>::from_timestamp(172800, 0).unwrap();
+        sources.extend(src_arrays!(Utc, t0, t1));
+        sources.extend(src_arrays!(Local, t0.with_timezone(&chrono::Local), t1.with_timezone(&chrono::Local)));
+        sources.extend(src_arrays!(Fixed, t0.with_timezone(&chrono::FixedOffset::east_opt(0).unwrap()), t1.with_timezone(&chrono::FixedOffset::east_opt(0).unwrap())));
         macro_rules! target {
             ($t:ty) => {
                 for (sname, v) in &sources {
@@ -607,11 +679,15 @@ pub fn run(rep: &Arc<Report>) {
                         continue;
                     }
                     evals.inc();
-                    if <Vec<$t> as ValueType>::try_from(v.clone()).is_ok() {
-                        cx.fail(&format!("cross<Vec<{}>>", stringify!($t)), "wrong-type-accepted", &format!("Array({sname})"), format!("Vec<{}>::try_from({:?}) returned Ok", stringify!($t), v));
+                    match catch(|| <Vec<$t> as ValueType>::try_from(v.clone()).is_ok()) {
+                        Ok(false) => {}
+                        Ok(true) => cx.fail(&format!("cross<Vec<{}>>", stringify!($t)), "wrong-type-accepted", &format!("Array({sname})"), format!("Vec<{}>::try_from({:?}) returned Ok", stringify!($t), v)),
+                        Err(p) => cx.fail(&format!("cross<Vec<{}>>", stringify!($t)), "panic", &format!("Array({sname})"), format!("Vec<{}>::try_from({:?}) panicked: {p}", stringify!($t), v)),
                     }
-                    if let Ok(x) = <Option<Vec<$t>> as ValueType>::try_from(v.clone()) {
-                        cx.fail(&format!("cross<Option<Vec<{}>>>", stringify!($t)), "wrong-type-accepted", &format!("Array({sname})"), format!("Option<Vec<{}>>::try_from({:?}) returned Ok({:?})", stringify!($t), v, x.map(|v| v.len())));
+                    match catch(|| <Option<Vec<$t>> as ValueType>::try_from(v.clone()).map(|x| x.map(|v| v.len()))) {
+                        Ok(Err(_)) => {}
+                        Ok(Ok(x)) => cx.fail(&format!("cross<Option<Vec<{}>>>", stringify!($t)), "wrong-type-accepted", &format!("Array({sname})"), format!("Option<Vec<{}>>::try_from({:?}) returned Ok({:?})", stringify!($t), v, x)),
+                        Err(p) => cx.fail(&format!("cross<Option<Vec<{}>>>", stringify!($t)), "panic", &format!("Array({sname})"), format!("Option<Vec<{}>>::try_from({:?}) panicked: {p}", stringify!($t), v)),
                     }
                 }
             };
@@ -625,6 +701,9 @@ pub fn run(rep: &Arc<Report>) {
         target!(char);
         target!(String);
         target!(uuid::Uuid);
+        target!(Utc);
+        target!(Local);
+        target!(Fixed);
     }
     // ---- as_null / dummy_value on the whole pool (incl. NULLs)
     for v in &pool {
